@@ -13,7 +13,9 @@ Inductive recv_outcome :=
 | RTimeout | RReset | REof | RGarbage.
 Record attempt := mkA { a_connect : conn_outcome; a_send : send_outcome; a_recv : recv_outcome }.
 
-Inductive proxy_mode := Direct | Forwarding | Tunnelling.     (* Tunnelling: CONNECT to an http proxy, always granted *)
+(* Tunnelling: CONNECT to an http proxy, always granted; `up`: urlopen remembers that the tunnel of the attempt is up and
+   then never reports a failure to reach the proxy (a fact of the source) *)
+Inductive proxy_mode := Direct | Forwarding | Tunnelling (up : bool).
 
 (* what one attempt did on the network *)
 Record wire := mkW { w_connected : bool; w_sent : bool }.
@@ -64,7 +66,7 @@ Definition attempt_exception (need_connect : bool) (a : attempt) : option raised
 Definition wrap (mode : proxy_mode) (connected_to_proxy : bool) (cls : str) : exn :=
   let e1 := if isinstance L cls to_ssl then mkExn (C "SSLError") (Some cls) else mkExn cls None in
   if isinstance L (e_cls e1) to_proxy &&
-     (match mode with Direct => false | Forwarding | Tunnelling => negb connected_to_proxy end)
+     (match mode with Direct => false | Forwarding | Tunnelling _ => negb connected_to_proxy end)
   then mkExn (C "ProxyError") (Some (e_cls e1))
   else if isinstance L (e_cls e1) to_protocol then mkExn (C "ProtocolError") (Some (e_cls e1))
   else e1.
@@ -101,7 +103,7 @@ Fixpoint loop (script : list attempt) (mode : proxy_mode) (method : str) (r : re
             (* has_connected_to_proxy at classification time: set by a successful connect
                (or kept on a reused connection), reset when the connection was closed *)
             match (if need_connect then a_connect a else COk) with
-            | COk => negb closed
+            | COk => match mode with Tunnelling true => true | _ => negb closed end
             | _ => false
             end in
           let e := wrap mode connected cls in
